@@ -242,6 +242,8 @@ func (fr *Frame) nonblocking() bool {
 func (fr *Frame) goStmt(st *State, n *ast.GoStmt) {
 	// the spawned body is not executed here; record the site
 	fr.x.u.havocSites = append(fr.x.u.havocSites, fmt.Sprintf("%s: go statement not executed (%s)", fr.pos(n.Pos()), trunc(fr.src(n.Call.Fun), 40)))
+	// at-clauses keyed by the call apply (the arguments are evaluated here and now)
+	fr.atCall(st, n.Call)
 	// arguments are still evaluated
 	for _, a := range n.Call.Args {
 		fr.expr(st, a)
